@@ -81,12 +81,12 @@ theorem fair_stageA (n : Node) (w : Nat) (base tip : Int) (hw : WF n)
     n3.st = n.st ∧ n3.store = n.store ∧ n3.pool.height = n.pool.height ∧ w ∈ n3.connected ∧
     n3.pool.peer? w = some ⟨w, base, tip, 0, false⟩ ∧ tip ≤ n3.pool.maxPeerHeight ∧
     (∃ g, SamePB g ∧ n3.pool.requesters = n.pool.requesters.map g) ∧
-    (∀ q ∈ n3.pool.peers, q.id ∈ n3.connected) := by
+    (∀ q ∈ n3.pool.peers, q.id ∈ n3.connected) ∧ n3.pool.numPending = n.pool.numPending := by
   -- after disconnect + connect: w connected, not in the pool
   have h12 : ∃ n2 : Node, ((n.disconnect w).1.connect w).1 = n2 ∧ n2.st = n.st ∧ n2.store = n.store ∧
       n2.pool.height = n.pool.height ∧ w ∈ n2.connected ∧ n2.pool.peer? w = none ∧
       (∃ g, SamePB g ∧ n2.pool.requesters = n.pool.requesters.map g) ∧
-      (∀ q ∈ n2.pool.peers, q.id ∈ n2.connected) ∧ n2.pool.maxPeerHeight = n2.pool.maxPeerHeight := by
+      (∀ q ∈ n2.pool.peers, q.id ∈ n2.connected) ∧ n2.pool.numPending = n.pool.numPending := by
     refine ⟨_, rfl, ?_⟩
     unfold Node.disconnect
     by_cases hc : w ∈ n.connected
@@ -95,7 +95,7 @@ theorem fair_stageA (n : Node) (w : Nat) (base tip : Int) (hw : WF n)
       unfold Node.connect
       simp only [hnot, if_false]
       obtain ⟨hr, hh⟩ := removePeer_reqs n.pool w
-      refine ⟨(by first | rfl | trivial), (by first | rfl | trivial), hh, by simp, removePeer_self _ _, ⟨_, samePB_mark w, hr⟩, ?_, (by first | rfl | trivial)⟩
+      refine ⟨(by first | rfl | trivial), (by first | rfl | trivial), hh, by simp, removePeer_self _ _, ⟨_, samePB_mark w, hr⟩, ?_, (by unfold Pool.removePeer; split <;> rfl)⟩
       intro q hq
       have hq0 := removePeer_peers_sub n.pool w q hq
       have hne : q.id ≠ w := by
@@ -115,7 +115,7 @@ theorem fair_stageA (n : Node) (w : Nat) (base tip : Int) (hw : WF n)
       intro q hq
       have := hw.peers q hq
       simp [this]
-  obtain ⟨n2, e2, hst, hsto, hh, hc, hnone, hg, hp, _⟩ := h12
+  obtain ⟨n2, e2, hst, hsto, hh, hc, hnone, hg, hp, hnum⟩ := h12
   simp only [e2]
   unfold Node.recvStatus
   have hnc : ¬ w ∉ n2.connected := by simpa using hc
@@ -123,7 +123,7 @@ theorem fair_stageA (n : Node) (w : Nat) (base tip : Int) (hw : WF n)
   simp only [hnc, if_false, hval]
   unfold Pool.setPeerRange
   simp only [hnone, Option.isSome_none, Bool.false_eq_true, if_false]
-  refine ⟨hst, hsto, hh, hc, ?_, ?_, hg, ?_⟩
+  refine ⟨hst, hsto, hh, hc, ?_, ?_, hg, ?_, hnum⟩
   · unfold Pool.peer?
     have : n2.pool.peers.find? (fun q => decide (q.id = w)) = none := hnone
     simp [List.find?_append, this]
@@ -143,16 +143,22 @@ def Requester.idle (r : Requester) : Prop := r.peer = none ∧ r.block = none
 /-- no requester holds a block without a peer -/
 def ReqsOK (l : List Requester) : Prop := ∀ r ∈ l, r.peer = none → r.block = none
 
-theorem mkreq_spec (p : Pool) (hok : ReqsOK p.requesters) :
-    p.makeNextRequester.height = p.height ∧ p.makeNextRequester.peers = p.peers ∧
-    p.makeNextRequester.maxPeerHeight = p.maxPeerHeight ∧ ReqsOK p.makeNextRequester.requesters ∧
-    p.requesters.length ≤ p.makeNextRequester.requesters.length ∧
+theorem mkreq_spec (p : Pool) (hok : ReqsOK p.requesters) (hnp : p.numPending ≤ p.requesters.length) :
+    p.routineStep.height = p.height ∧ p.routineStep.peers = p.peers ∧
+    p.routineStep.maxPeerHeight = p.maxPeerHeight ∧ ReqsOK p.routineStep.requesters ∧
+    p.requesters.length ≤ p.routineStep.requesters.length ∧
+    p.routineStep.numPending ≤ p.routineStep.requesters.length ∧
     (p.height + p.requesters.length ≤ p.maxPeerHeight →
-      p.makeNextRequester.requesters.length = p.requesters.length + 1) := by
+      p.routineStep.requesters.length = p.requesters.length + 1 ∨ 600 ≤ p.requesters.length) := by
+  unfold Pool.routineStep Facts.c13_maxPendingRequests Facts.c13_maxTotalRequesters
+  split
+  · rename_i h; exact ⟨rfl, rfl, rfl, hok, Nat.le_refl _, hnp, fun _ => Or.inr (by omega)⟩
+  split
+  · rename_i h; exact ⟨rfl, rfl, rfl, hok, Nat.le_refl _, hnp, fun _ => Or.inr (by omega)⟩
   unfold Pool.makeNextRequester
   split
-  · rename_i h; exact ⟨rfl, rfl, rfl, hok, Nat.le_refl _, fun h' => by omega⟩
-  · refine ⟨rfl, rfl, rfl, ?_, by simp, fun _ => by simp⟩
+  · rename_i h; exact ⟨rfl, rfl, rfl, hok, Nat.le_refl _, hnp, fun h' => by omega⟩
+  · refine ⟨rfl, rfl, rfl, ?_, by simp, by simp; omega, fun _ => Or.inl (by simp)⟩
     intro r hr
     simp only [List.mem_append, List.mem_singleton] at hr
     rcases hr with hr | rfl
@@ -196,21 +202,23 @@ theorem reqsOK_set (l : List Requester) (k : Nat) (r : Requester) (hok : ReqsOK 
 
 /-- stage B: two requesters exist and are back in the picking state -/
 theorem fair_stageB (p : Pool) (tip : Int) (hok : ReqsOK p.requesters) (htip : p.height < tip)
-    (hmax : tip ≤ p.maxPeerHeight) :
-    let p4 := (((p.makeNextRequester.makeNextRequester).rtimeout p.height).1.rtimeout (p.height + 1)).1
+    (hmax : tip ≤ p.maxPeerHeight) (hnp : p.numPending ≤ p.requesters.length) :
+    let p4 := (((p.routineStep.routineStep).rtimeout p.height).1.rtimeout (p.height + 1)).1
     p4.height = p.height ∧ p4.peers = p.peers ∧
     ∃ r0 r1 rest, p4.requesters = r0 :: r1 :: rest ∧ r0.idle ∧ r1.idle := by
-  obtain ⟨a1, a2, a3, a4, a5, a6⟩ := mkreq_spec p hok
-  obtain ⟨b1, b2, b3, b4, b5, b6⟩ := mkreq_spec p.makeNextRequester a4
-  generalize hq : p.makeNextRequester.makeNextRequester = q at *
+  obtain ⟨a1, a2, a3, a4, a5, a7, a6⟩ := mkreq_spec p hok hnp
+  obtain ⟨b1, b2, b3, b4, b5, _, b6⟩ := mkreq_spec p.routineStep a4 a7
+  generalize hq : p.routineStep.routineStep = q at *
   have hlen : 2 ≤ q.requesters.length := by
     rw [a1, a3] at b6
     by_cases h0 : p.requesters.length = 0
-    · have := a6 (by rw [h0]; simp; omega)
-      have := b6 (by rw [this, h0]; simp; omega)
-      omega
+    · have h1 := a6 (by rw [h0]; simp; omega)
+      rcases h1 with h1 | h1
+      · have h2 := b6 (by rw [h1, h0]; simp; omega)
+        omega
+      · omega
     · by_cases h1 : p.requesters.length = 1
-      · have := a6 (by rw [h1]; simp; omega)
+      · have h2 := a6 (by rw [h1]; simp; omega)
         omega
       · omega
   have hqh : q.height = p.height := by rw [b1, a1]
@@ -407,7 +415,8 @@ theorem run_append (n : Node) (l1 l2 : List Op) :
 
 /-- from ANY well-formed node, the fair round saves and executes the first of two blocks that pass
 the check on the node's state, with the second's commit as seen commit -/
-theorem fairRound_saves (n : Node) (hw : WF n) (w : Nat) (base tip : Int) (b1 b2 : Block)
+theorem fairRound_saves (n : Node) (hw : WF n) (hnp : n.pool.numPending ≤ n.pool.requesters.length)
+    (w : Nat) (base tip : Int) (b1 b2 : Block)
     (hb0 : 0 ≤ base) (hbase : base ≤ n.pool.height) (htip : n.pool.height < tip)
     (hb1 : b1.height = n.pool.height) (hb2 : b2.height = n.pool.height + 1)
     (hw1 : b1.wellFormed) (hw2 : b2.wellFormed)
@@ -415,7 +424,7 @@ theorem fairRound_saves (n : Node) (hw : WF n) (w : Nat) (base tip : Int) (b1 b2
     let n' := n.run sigOK (fairRound n.pool.height w base tip b1 b2)
     n'.store = (b1, b2.lastCommit) :: n.store ∧ n'.st = applyBlock n.st b1 ∧
       n'.pool.height = n.pool.height + 1 := by
-  obtain ⟨a_st, a_store, a_h, a_conn, a_peer, a_max, ⟨g, hg, a_reqs⟩, _⟩ :=
+  obtain ⟨a_st, a_store, a_h, a_conn, a_peer, a_max, ⟨g, hg, a_reqs⟩, _, a_num⟩ :=
     fair_stageA n w base tip hw hb0 (by omega)
   generalize hn3 : ((((n.disconnect w).1.connect w).1).recvStatus w base tip).1 = n3 at *
   have hok3 : ReqsOK n3.pool.requesters := by
@@ -433,7 +442,8 @@ theorem fairRound_saves (n : Node) (hw : WF n) (w : Nat) (base tip : Int) (b1 b2
       rw [hnone] at this; simp at this
   obtain ⟨b_h, b_peers, r0, r1, rest, b_reqs, hi0, hi1⟩ :=
     fair_stageB n3.pool tip hok3 (by rw [a_h]; exact htip) a_max
-  generalize hp4 : (((n3.pool.makeNextRequester.makeNextRequester).rtimeout n3.pool.height).1.rtimeout
+      (by rw [a_num, a_reqs]; simpa using hnp)
+  generalize hp4 : (((n3.pool.routineStep.routineStep).rtimeout n3.pool.height).1.rtimeout
     (n3.pool.height + 1)).1 = p4 at *
   -- the first seven operations
   have hrun7 : n.run sigOK [.disconnect w, .connect w, .status w base tip, .mkreq, .mkreq,
